@@ -285,3 +285,171 @@ def keyword_like_words():
         out += [w, w.capitalize(), w.upper(), w.title(), w[0] + w[1:].upper(), "".join(c.upper() if k % 2 else c for k, c in enumerate(w))]
     out += ["\u017folo", "\u017foloend", "\u017fection", "lyr\u0131c", "LYR\u0130C", "\u212a", "SOLOEND", "SoloEnd", "soloEnd", "\ufb01", "stra\u00dfe", "STRASSE"]
     return sorted(set(out))
+
+
+# ---------------------------------------------------------------------------------------------
+# Block-aligned charts.  A reader that works in blocks (of 4 KiB, 8 KiB, 64 KiB, 1 MiB ... characters or bytes) must not care
+# where a block boundary falls.  Every power-of-two block size >= `unit` has its boundaries on multiples of `unit`: the section
+# under test is laid out in units of exactly `unit` characters (bytes when written to disk: the text is ASCII except in the
+# "straddle" variant), each a long filler line followed by a few short payload lines, so that - with shift 0 - the line
+# terminator of a payload line sits exactly before EVERY multiple of `unit` in the section, with shift 1, 2 ... the boundary
+# falls one, two ... characters into the next line, and with a negative shift inside the payload line itself.  More than 2^20
+# characters in a few thousand lines: one parse takes a fraction of a second.
+SONG_STRING_FIELDS = ["Name", "Artist", "Charter", "Album", "Year", "Genre", "MediaType", "MusicStream", "GuitarStream", "RhythmStream", "BassStream",
+                      "DrumStream", "Drum2Stream", "Drum3Stream", "Drum4Stream", "VocalStream", "KeysStream", "CrowdStream"]
+
+
+def block_aligned_chart(kind, unit=4096, shift=0, nunits=520, straddle=False):
+    """kind: "track" | "sync" | "events" | "song".  Returns (text, expected): expected = what the section under test must
+    yield, in file order, as small JSON-able tuples."""
+    pre = {"Song": ["Resolution = 192"], "SyncTrack": ["0 = TS 4", "0 = B 120000"], "Events": []}
+    tag = {"track": "ExpertSingle", "sync": "SyncTrack", "events": "Events", "song": "Song"}[kind]
+    head: list[str] = []
+    for t in ("Song", "SyncTrack", "Events"):
+        if t != tag:
+            head += section(t, pre[t])
+    head += [f"[{tag}]", "{"] + ["  " + ln for ln in pre.get(tag, [])]
+    out = list(head)
+    pos = sum(len(ln.encode("utf-8")) + 1 for ln in out)             # offset (bytes = characters for ASCII) of the next line's start
+    expected = []
+    tick = 10
+    for u in range(nunits):
+        # payload of this unit
+        if kind == "track":
+            pay = [f"  {tick} = N {u % 5} {(u * 7) % 50}", f"  {tick + 1} = S 2 {u % 9}", f"  {tick + 2} = E w{u}"][: 1 + u % 3]
+            exp = [["N", tick, u % 5, (u * 7) % 50], ["S", tick + 1, u % 9], ["E", tick + 2, f"w{u}"]][: 1 + u % 3]
+            fill = lambda k, t=tick - 5: f"  {t} = E " + "x" * k                                   # noqa: E731
+            fexp = lambda k, t=tick - 5: ["E", t, "x" * min(k, 3) + str(k)]                         # noqa: E731
+        elif kind == "sync":
+            pay = [f"  {tick} = B {60000 + u}", f"  {tick + 1} = TS {1 + u % 12}", f"  {tick + 2} = A {1000 * u}"][: 1 + u % 3]
+            exp = [["B", tick, 60000 + u], ["TS", tick + 1, 1 + u % 12], ["A", tick + 2, 1000 * u]][: 1 + u % 3]
+            fill = lambda k: "  " + "x" * k                                                         # noqa: E731  (unparsable, reported, skipped)
+            fexp = lambda k: None                                                                   # noqa: E731
+        elif kind == "events":
+            word = "中文歌词日本語歌" if straddle else f"v{u}"
+            pay = [f'  {tick} = E "lyric {word}"', f'  {tick + 1} = E "section s{u}"', f'  {tick + 2} = E "t{u}"'][: 1 + (0 if straddle else u % 3)]
+            exp = [["lyric", tick, word], ["section", tick + 1, f"s{u}"], ["text", tick + 2, f"t{u}"]][: 1 + (0 if straddle else u % 3)]
+            fill = lambda k, t=tick - 5: f'  {t} = E "' + "x" * k + '"'                             # noqa: E731
+            fexp = lambda k, t=tick - 5: ["text", t, "x" * min(k, 3) + str(k)]                      # noqa: E731
+        else:
+            # (a field counts once: the 18 string fields sit in the units that END on the boundaries of the large block sizes -
+            #  2 x unit x {1, 2, 4 ... 512, ...} for the power-of-two layout, 2 x unit x {1, 5, 50, 500, ...} for the decimal one)
+            special = ([1, 2, 4, 8, 16, 32, 64, 128, 256, 384, 512, 96, 192, 320, 448, 160, 224, 288] if unit & (unit - 1) == 0
+                       else [1, 5, 50, 500, 10, 100, 1000, 25, 250, 2, 20, 200, 4, 40, 400, 8, 80, 800])
+            first = (u + 1) in special
+            f = SONG_STRING_FIELDS[special.index(u + 1)] if first else "Name"
+            pay = [f'  {f} = "{f.lower()}{u}"'] if first else [f'  Pad{u} = "p"']
+            exp = [[f, f"{f.lower()}{u}"]] if first else []
+            fill = lambda k, u=u: f'  Fill{u} = "' + "x" * k + '"'                                  # noqa: E731  (an unknown field: ignored)
+            fexp = lambda k: None                                                                   # noqa: E731
+        paylen = sum(len(ln.encode("utf-8")) + 1 for ln in pay)
+        # the filler makes the unit end (the terminator of its last payload line) fall `shift` before a multiple of `unit`;
+        # in the straddle variant the boundary falls inside the multi-byte run of the payload's value instead
+        target = ((pos // unit) + 2) * unit - shift
+        if straddle:
+            target += 16
+        k = target - pos - paylen - len(fill(0).encode("utf-8")) - 1
+        line = fill(k)
+        fe = fexp(k)
+        if fe is not None:
+            expected.append(fe)
+        out.append(line)
+        out += pay
+        expected += exp
+        pos = target
+        tick += 10
+    out.append("}")
+    if kind == "song":
+        expected = sorted(expected)
+    return "\n".join(out) + "\n", expected
+
+
+def observed_section(chart, kind):
+    """The same projection of a parsed chart (see block_aligned_chart)."""
+    short = lambda w: w if len(w) < 12 or not w.startswith("x") else w[:3] + str(len(w))             # noqa: E731
+    if kind == "track":
+        tr = [t for _, dd in chart.instrument_tracks.items() for _, t in dd.items()][0]
+        ev = [(int(e.tick), 0, ["N", int(e.tick), [j for j in range(5) if e.note.value[j]][0], int(e.sustain)]) for e in tr.note_events]
+        ev += [(int(e.tick), 1, ["S", int(e.tick), int(e.sustain)]) for e in tr.star_power_events]
+        ev += [(int(e.tick), 2, ["E", int(e.tick), short(e.value)]) for e in tr.track_events]
+        return [x[2] for x in sorted(ev, key=lambda x: x[0])]
+    if kind == "sync":
+        s = chart.sync_track
+        ev = [(int(e.tick), ["B", int(e.tick), int(round(e.bpm * 1000))]) for e in list(s.bpm_events.events)[1:]]
+        ev += [(int(e.tick), ["TS", int(e.tick), int(e.upper_numeral)]) for e in list(s.time_signature_events)[1:]]
+        ev += [(int(e.tick), ["A", int(e.tick), (e.timestamp.days * 86400 + e.timestamp.seconds) * 10**6 + e.timestamp.microseconds]) for e in s.anchor_events]
+        return [x[1] for x in sorted(ev, key=lambda x: x[0])]
+    if kind == "events":
+        g = chart.global_events_track
+        ev = [(int(e.tick), [k, int(e.tick), short(e.value)]) for k, evs in (("lyric", g.lyric_events), ("section", g.section_events), ("text", g.text_events)) for e in evs]
+        return [x[1] for x in sorted(ev, key=lambda x: x[0])]
+    m = chart.metadata
+    import re
+    return sorted([f, getattr(m, re.sub(r"(?<!^)(?=[A-Z0-9])", "_", f).lower().replace("drum_2", "drum2").replace("drum_3", "drum3").replace("drum_4", "drum4"))]
+                  for f in SONG_STRING_FIELDS if getattr(m, re.sub(r"(?<!^)(?=[A-Z0-9])", "_", f).lower().replace("drum_2", "drum2").replace("drum_3", "drum3").replace("drum_4", "drum4")) is not None)
+
+
+def block_alignment_records(prop, kind, quick=True, straddle=False):
+    """Records of kind "blocks" (a = what was written, b = what was parsed) for the block-aligned charts of a section kind:
+    units of 4096 and 1000 characters, shifts around the boundary, through Chart.from_file and Chart.from_filepath."""
+    import os
+    from pathlib import Path
+    load_impl()
+    from chartparse.chart import Chart
+    recs = []
+    layouts = [(4096, 520), (1000, 1100)] if not straddle else [(4096, 40)]
+    shifts = [0, 1, 2, 3, -1, -2] if not straddle else [0, 1, 2]
+    for unit, nunits in layouts:
+        for sh in shifts:
+            text, expected = block_aligned_chart(kind, unit=unit, shift=sh, nunits=nunits, straddle=straddle)
+            for via in ("file", "path"):
+                if via == "path" and not os.environ.get("VERIF_TMP"):
+                    continue
+                rid = f"blocks-{kind}-{unit}-{sh}-{via}" + ("-straddle" if straddle else "")
+                try:
+                    if via == "file":
+                        chart = Chart.from_file(io.StringIO(text))
+                    else:
+                        p = os.path.join(os.environ["VERIF_TMP"], f"blocks-{os.getpid()}.chart")
+                        with open(p, "wb") as f:
+                            f.write(text.encode("utf-8"))
+                        chart = Chart.from_filepath(Path(p))
+                    got = observed_section(chart, kind)
+                except Exception as e:  # noqa: BLE001
+                    got = ["raised", type(e).__name__]
+                recs.append({"id": rid, "props": [prop], "kind": "blocks", "what": "same-events-wherever-a-block-boundary-falls",
+                             "a": json_digest(expected), "b": json_digest(got), "first_difference": first_difference(expected, got),      # (a string: TLC's JSON reader has no null)
+                             "layout": {"section": kind, "unit": unit, "shift": sh, "units": nunits, "via": via, "straddle": straddle, "chars": len(text)}})
+    return recs
+
+
+def json_digest(x):
+    import hashlib
+    import json
+    return hashlib.sha256(json.dumps(x, ensure_ascii=True, separators=(",", ":")).encode()).hexdigest()[:24]
+
+
+def first_difference(a, b):
+    import json
+    for k, (x, y) in enumerate(zip(a, b)):
+        if x != y and (not isinstance(x, (list, tuple)) or not isinstance(y, (list, tuple)) or list(x) != list(y)):
+            return json.dumps({"position": k, "written": x, "parsed": y}, ensure_ascii=True)[:400]
+    if len(a) != len(b):
+        return json.dumps({"position": min(len(a), len(b)), "written_count": len(a), "parsed_count": len(b)})
+    return ""
+
+
+def judge_block_alignment(ctx, prop, kinds, straddle_events=False):
+    """Run the block-aligned charts of the given section kinds through the real parser and have TLC judge the records."""
+    recs = []
+    for kind in kinds:
+        recs += block_alignment_records(prop, kind)
+    if straddle_events:
+        recs += block_alignment_records(prop, "events", straddle=True)
+    ctx.evaluations += len(recs)
+    ctx.extra["block_aligned_parses"] = ctx.extra.get("block_aligned_parses", 0) + len(recs)
+    by_id = {x["id"]: x for x in recs}
+    for rid, p, clause in ctx.validate(recs, max_skip_ratio=0.0):
+        x = by_id[rid]
+        ctx.violation(clause, {"kind": "blocks", "layout": x["layout"], "first_difference": x["first_difference"]},
+                      key=clause + "|" + x["layout"]["section"])
